@@ -200,3 +200,26 @@ PROPS["C17"] = dict(
     replay_attempts=200,
     gomaxprocs1=True,
 )
+
+PROPS["C11"] = dict(
+    level="model_checking",
+    technique="bounded symbolic execution of go/ssa (gosmt) with modelled goroutines/channels/timers: caller/apply interleavings, commit/no-commit, owner reachability and batch composition are path decisions (no solver variables: verdict by exhaustive path enumeration)",
+    explanation="real partition.insert/update/remove/batch* -> proposeAndWaitForCommit over a RaftGroup wrapping a harness etcdRaft.Node; an apply goroutine runs the real partition.process at any later scheduling point or never; Dataset.Insert/Update/Remove/Batch* with local and remote owners",
+    runs={
+        "quick": [
+            dict(pkg="./storage", entry="VerifC11Local", bounds="maxcallers=2,preempt=1", reach=["callers-returned", "end2"]),
+            dict(pkg="./storage", entry="VerifC11Remote", bounds="", reach=["remote-end"]),
+            dict(pkg="./storage", entry="VerifC11Batch", bounds="preempt=1", reach=["batch-end"]),
+        ],
+        "thorough": [
+            dict(pkg="./storage", entry="VerifC11Local", bounds="maxcallers=2,preempt=2", reach=["callers-returned", "end2"]),
+            dict(pkg="./storage", entry="VerifC11Remote", bounds="", reach=["remote-end"]),
+            dict(pkg="./storage", entry="VerifC11Batch", bounds="preempt=2", reach=["batch-end"]),
+        ],
+    },
+    outside="more than 2 concurrent callers; real raft (Propose is a harness stub that feeds an apply goroutine); the proposal timeout fires only when every goroutine is blocked (computation is fast relative to the 5 s timeout)",
+    assumptions=COMMON_ASSUME + ["etcdRaft.Node is a harness implementation; RaftGroup is built by an overlay-only constructor (storage/raft/zz_verif_export.go)",
+                                 "Hnsw.RandomLevel draws from the stubbed math/rand (constant)"],
+    replay_attempts=300,
+    gomaxprocs1=True,
+)
